@@ -264,6 +264,11 @@ ARG_CLASSES = {
     "missing-ligand": (["--ff=AMBER", "--ligand=/dev/shm/verif-no-such.mol2"],
                        None),
     "unknown-ff": (["--ff=NOSUCHFF"], None),
+    # secondary outputs that cannot be written
+    "pdb-output-in-missing-directory": (
+        ["--ff=AMBER", "--pdb-output=/dev/shm/verif-no-such-dir/x.pdb"], None),
+    "apbs-input-in-missing-directory": (
+        ["--ff=AMBER", "--apbs-input=/dev/shm/verif-no-such-dir/x.in"], None),
 }
 
 
@@ -321,8 +326,18 @@ def _input_classes():
     trunc = build.build_peptide(
         ["SER", "LEU", "LYS", "PHE", "GLU", "ALA"],
         omit={1: {"CD1", "CD2"}, 2: {"NZ"}, 3: {"CZ", "CE1"}, 4: {"OE1"}})
+    shortcut = {}
+    for oname, o in (("clean", ["--clean"]),
+                     ("assign-only", ["--ff=AMBER", "--assign-only"])):
+        # the short cuts must refuse what the full pipeline refuses
+        shortcut[f"empty-file:{oname}"] = ("", o, None)
+        shortcut[f"header-only:{oname}"] = (
+            "HEADER    NOTHING\nREMARK   1\nEND\n", o, None)
+        shortcut[f"no-pdb-records:{oname}"] = (
+            "this is not a structure file\nat all\n", o, None)
     return {
         **frac,
+        **shortcut,
         "too-many-missing+waters": (build.pdb_text(trunc + wat),
                                     ["--ff=AMBER"], None),
         "too-many-missing-no-waters": (build.pdb_text(trunc), ["--ff=AMBER"],
@@ -511,6 +526,9 @@ def enumerate_cases(tier, seed):
                  "too-many-missing+waters", "too-many-missing-no-waters",
                  "waters-only"]:
         cases.append({"mode": "input", "name": name})
+    for oname in ("clean", "assign-only"):
+        for base in ("empty-file", "header-only", "no-pdb-records"):
+            cases.append({"mode": "input", "name": f"{base}:{oname}"})
     for label in FRACTION_BASES:
         for delta in FRACTION_DELTAS:
             cases.append({"mode": "input",
